@@ -23,7 +23,7 @@ CLAIMED = {
  "C06": ("deterministic simulation: credentials produced by an independent issuer on a skewed issuer clock, delivered over a simulated TCP network through the real http.Server+mux (which drains the body) to the real Validator at drawn validator-clock instants (exp/nbf/TTL edges), with single-field corruption in flight",
          "Seeded search over validator configurations (headers/JWT/signature/basic, combined) x requests x issuer-vs-validator clock skew and exact boundary instants x one in-flight mutation of a covered element x body segmentation; accept/reject, result string, status and the body that would be forwarded are compared with what the credentials and the clock dictate.",
          "DESIGN.md §6 C06", "the issuer (JWT writer, SigV4-style signer, Basic encoder) is harness code written from the documented algorithms; both answers are accepted exactly on time edges; oauth2 and basicAuth FILE mode are not generated."),
- "C07": ("deterministic simulation: same real HTTP chain as C03 with body sizes on and around the effective limits, declared/chunked/lying lengths (both directions), route cache, header-conditioned path entries, Proxy compression, mirror pool and a hot update of all four limits between two rounds, over a simulated TCP network",
+ "C07": ("deterministic simulation: same real HTTP chain as C03 with body sizes on and around the effective limits, declared/chunked/lying lengths (both directions), route cache, header-conditioned path entries, Proxy compression, mirror pool, pool memory cache, backends that close kept-alive connections under a request (HTTP-client replays) and a hot update of all four limits between two rounds, over a simulated TCP network",
          "Seeded search over limit settings at path/server/pool/proxy level x body sizes around the limit x encodings x segmentation; the client-visible status/body and what the backend saw are compared with the limit rules of the statement.",
          "DESIGN.md §6 C07", "the 4 MiB default is exercised in the thorough tier only."),
  "C08": ("deterministic simulation: real CircuitBreaker + resilience wrapper under seeded scheduler and virtual clock, lock-step comparison with a reference automaton",
@@ -35,7 +35,7 @@ CLAIMED = {
  "C10": ("deterministic simulation: real ServerPool.handle with Retry/CircuitBreaker wrappers and pool time-out under concurrent clients on the virtual clock; scripted per-attempt transport outcomes (incl. stream responses read after the handler returned), client cancellation at drawn instants (incl. exact back-off boundaries); second variant with the Proxy's real http.Transport over the simulated network against a stalling/resetting backend",
          "Seeded search over retry policies x per-attempt outcome scripts x cancellation instants x time-outs x buffered/stream bodies x interleavings; attempts, their spacing, the final outcome and the breaker's window totals are checked against the statement, with bounded liveness (408 within the bound of simulated time) on the network variant.",
          "DESIGN.md §6 C10", "fnSendRequest is scripted in 92% of runs; 8% use the real transport over simnet."),
- "C11": ("deterministic simulation: requests kept in flight (parked at gates inside handlers/filters) while reload / Inherit / apply / delete run on the real mux, Pipeline + 12 filter kinds and TrafficController; quiescent twins per generation as oracle",
+ "C11": ("deterministic simulation: requests kept in flight (parked at gates inside handlers/filters) while reload / Inherit / apply / delete run on the real mux (with and without a tracing section), Pipeline + 12 filter kinds and TrafficController, with a real MQTTProxy (broker on the simulated network, raw MQTT clients, CONNECT and PUBLISH pipelines) living next to the HTTP objects and being created / updated / deleted meanwhile; quiescent twins per generation as oracle",
          "Seeded search over chains of old/new specs x request mixes x interleavings of request handling with mux.reload, Pipeline.Inherit (which closes the previous generation) and TrafficController create/apply/update/delete; every answer must equal, in all observed fields at once, the answer of a quiescent twin of one generation that was legitimately in effect during the request; no panic on the old generation; identical re-apply invokes no lifecycle call; untouched objects stay available.",
          "DESIGN.md §6 C11", "twins are the same code at rest; service discovery, tracing, HTTPS and filter kinds needing a cluster or remote endpoint are not generated."),
  "C12": ("deterministic simulation: request histories from concurrent clients against twin real muxes (cacheSize n vs 0), including colliding keys, constant eviction, rewritten paths that coincide with literal ones, request bodies with body limits, proxy-header client IPs and hot reloads of both twins (quiescent and in flight)",
@@ -50,7 +50,7 @@ CLAIMED = {
  "C16": ("deterministic simulation: real MQTT Broker (handleConn, read/write loops, sessions, session manager, topic manager, resend tickers on the virtual clock) on the simulated network with 1-4 scripted connections contending for one client id; the instant at which a superseded connection's read loop learns of its end (reset, half-close, silence until keep-alive, late packet) is placed before/between/after the successor's steps by simnet and the scheduler; simulated session store with latency, errors and delete watch",
          "Seeded search over orders of connect / subscribe / drop / reconnect / takeover with both cleanSession values x teardown instants x pipelined packets x store latency/errors x interleavings (gates at locks, goroutine starts, selects, timers); after settling, the surviving connection's session, subscriptions (white-box and by probe publishes) and registration must be what the cleanSession rules dictate; invariants on the broker's client table at every quiescent point; admin delete disconnects.",
          "DESIGN.md §6 C16", "three genuine findings (own-delete echo, SUBACK/UNSUBACK before the snapshot is persisted) are listed as known in known_findings.txt; storage is a simulated etcd-like store."),
- "C17": ("deterministic simulation: real LimitListener+Semaphore under a real http.Server, the whole real httpserver runtime reconfigured through its event channel, and the real MQTT Broker, all on the simulated network with concurrent connects/closes/resets, SetMaxConnection sequences and aborted handshakes; open-connection counting oracle evaluated at every quiescent instant",
+ "C17": ("deterministic simulation: real LimitListener+Semaphore under a real http.Server, the whole real httpserver runtime reconfigured through its event channel, and the real MQTT Broker, all on the simulated network with concurrent connects/closes/resets, SetMaxConnection sequences, aborted and delayed handshakes, listener restarts and MQTTProxy updates (old broker closed, new one on the same port); open-connection counting oracle evaluated at every quiescent instant",
          "Seeded search over client populations x connect/idle/close/reset patterns x cap changes (grow, shrink below usage, back-to-back) x interleavings; open <= cap whenever no adjustment is pending, no accept at or above an applied cap, no established connection dropped by a shrink, released capacity is reusable (final phase admits exactly cap fresh connections), MQTT connects beyond the cap are refused with server-unavailable.",
          "DESIGN.md §6 C17", "a takeover of a connected id at the cap is accepted both ways (statement silent); sub-harness C17L (run as part of this check) drives LimitListener+Semaphore directly, without net/http, with gates inside Close and concurrent closers."),
  "C18": ("deterministic simulation: 1-3 simulated cluster members, each the real cluster code (lease, concurrency.Session/Mutex through pkg/cluster/mutex.go) with its own real etcd clientv3 over gRPC on the simulated network against simetcd, plus a real api.Server per member (chi router, middlewares, object handlers) driven concurrently; critical-section overlap counter, version/fold oracle and porcupine linearizability check (map+counter model) over histories stamped with the simulator's event sequence numbers",
